@@ -2,7 +2,7 @@
 import re
 
 from ..flow import bool_branch, discr_branch, edge_dominates, must_pass, awaited
-from ..mir import op_base, op_const, short, const_int as const_int_
+from ..mir import op_base, op_const, short, const_int as const_int_, const_int
 from .panics import resolve_place, pretty_sig
 
 EXPLANATION = (
@@ -160,6 +160,43 @@ def run(chk, prog):
                         "a Result tested by `?` in copy_half's relay loop is on some path a manufactured Ok(..) instead of the transfer's own result: "
                         "an I/O error (a peer's reset) is then handled like end-of-stream, the other endpoint sees an orderly shutdown instead of an abort")
     chk.floor("ERR1", ntry, 4, "`?` sites in the relay loop")
+
+    # ERR2: the zero-copy helper reports what the system call reported.  Its Ok(n) is how end-of-stream reaches copy_half (n == 0), so
+    # every Ok it returns carries the system call's own count; an Ok with a constant (an error turned into "0 bytes") makes a reset
+    # look like an orderly close in splice mode only
+    from ..flow import result_blocks
+    sp_fns = [prog.body_of(g) for g in prog.find(r"^common::splice::async_splice$", "redproxy_rs")]
+    if "linux" and not sp_fns:
+        chk.anchor_missing("ERR2", "common::splice::async_splice")
+    for g in sp_fns:
+        sysc = [c for c in g.calls if re.search(r"(^|::)splice$", c.path or "") and "fcntl" in (c.path or "") or re.search(r"nix::fcntl::splice$", c.path or "")]
+        nok = 0
+        for b in result_blocks(g, "Ok"):
+            for st in g.stmts(b):
+                if st["k"] != "assign" or st["rv"]["k"] != "agg" or st["rv"].get("variant") != "Ok" or not str(st["rv"].get("def", "")).endswith("result::Result"):
+                    continue
+                op = st["rv"]["ops"][0] if st["rv"]["ops"] else None
+                if op is None:
+                    continue
+                tys = g.local_ty_s(op_base(op)) if op_base(op) is not None else ""
+                if const_int(op) is None and not tys.startswith(("usize", "u")) and tys not in ("usize",):
+                    continue          # Ok(()) / Ok(guard) of other helpers inlined here
+                nok += 1
+                from_sys = False
+                if op_base(op) is not None:
+                    tr = g.trace(op_base(op))
+                    from_sys = any(k in ("place", "ref") and any(str(x).startswith("d:Ok") for x in info[1:]) and
+                                   any(kk == "call" and cc in sysc for kk, cc in g.trace(info[0])) for k, info in tr) or \
+                        any(k == "call" and info in sysc for k, info in tr)
+                okk = const_int(op) is None and from_sys
+                chk.instance("ERR2", "%s:%s" % (g.file, g.line), "async_splice returns Ok(n) only with the n the splice system call returned", okk)
+                if not okk:
+                    chk.finding("ERR2", g.key, "manufactured-count", "", "%s:%s" % (g.file, g.line),
+                                "async_splice returns Ok(%s) that is not the system call's own count: an error of the transfer (ECONNRESET, EPIPE) "
+                                "reported as a zero-length transfer is end-of-stream for copy_half, so in splice mode a peer's reset is relayed as an "
+                                "orderly close and the tunnel lingers half-open" % (const_int(op) if const_int(op) is not None else "a computed value"))
+        chk.floor("ERR2", nok, 1, "Ok(count) results of async_splice")
+        chk.floor("ERR2", len(sysc), 1, "splice system call sites")
 
     # ---------------------------------------------------------------- copy_bidi completion
     cb = prog.body_of(prog.one(r"^copy::copy_bidi$"))
